@@ -1,7 +1,7 @@
 """Per-property profiles of the tree pipeline (constants of the TLC runs, enabled
 operations, which predicates decide the property)."""
 
-BASE = {"Keys": {1, 2}, "Vals": {1, 2, 3}, "WeakKeys": set(), "BigVals": set(), "MaxSeq": 5, "MaxSealed": 1,
+BASE = {"Keys": {1, 2}, "Vals": {1, 2, 3}, "WeakKeys": set(), "OnceKeys": set(), "FilterRules": "<- NoRules", "BigVals": set(), "MaxSeq": 5, "MaxSealed": 1,
         "MaxTables": 3, "MaxSnaps": 0, "MaxHist": 3, "DestLevels": {0, 1, 6}, "SampleK": 1,
         "MinLen": 1, "WriteBias": 1}
 
@@ -189,6 +189,24 @@ PROFILES = {
              Ops=SNAP_OPS | {"reopen", "droprange", "clear"}, WriteBias=4),
          drv(300, 400, dict(DRIVE_SNAP_W, droprange=2.0, clear=0.5))],
         regress=["findings/C15-leveled-empty-next-level.replay.json"]),
+    # C17 compaction filters
+    "C17": tree_profile(
+        6, ["READ", "SCAN", "SNAPRES", "OPFAIL", "DANGLE", "PTR", "GC", "INVENT"],
+        c(Ops={"write", "rotate", "flush", "merge", "major", "snap"}, Vals={1, 2, 3, 4, 5, 6}, MaxSeq=5,
+          MaxSnaps=1, MaxHist=4, DestLevels={0, 6}, OnceKeys={2}, FilterRules="<- RulesB"),
+        [drv(40, 140, dict(DRIVE_SNAP_W, major=1.5, reopen=0.5), once_keys=(5, 6), filters=True)],
+        c(Ops={"write", "rotate", "flush", "merge", "major", "snap"}, Vals={1, 2, 3, 4, 5, 6}, MaxSeq=6,
+          MaxSnaps=1, MaxHist=4, DestLevels={0, 6}, OnceKeys={2}, FilterRules="<- RulesB"),
+        [drv(600, 300, dict(DRIVE_SNAP_W, major=1.5, reopen=0.5), once_keys=(5, 6), filters=True)],
+        blobs=[None, None] + BLOBS, val_alphas=[1]),
+    # C19 FIFO compaction
+    "C19": tree_profile(
+        8, ["FIFO", "READ", "SCAN", "OPFAIL", "INVENT"],
+        c(Ops={"write", "rotate", "flush", "reopen"}, MaxSeq=6, MaxTables=3),
+        [{"mode": "fifo", "count": 120}],
+        c(Ops={"write", "rotate", "flush", "reopen"}, Keys={1, 2, 3}, MaxSeq=7, MaxTables=4),
+        [{"mode": "fifo", "count": 3000}],
+        blobs=[None, None, BLOBS[0], BLOBS[1], BLOBS[6]], val_alphas=[1], key_alphas=[0, 1]),
     # C18 sequence number high-water marks
     "C18": tree_profile(
         6, ["HI", "HIA"],
